@@ -1,2 +1,155 @@
-(* placeholder, theorems follow *)
-From TFL Require Import Model.LatticeInterp.
+(* C02 — Lattice output is exact hypercube / simplex interpolation, inheriting
+   kernel shape.  Property theorems only; proofs are in Proofs/Interp1D.v,
+   Proofs/LatticeHyper.v, Proofs/LatticeSimplex.v, Proofs/LatticeInterp.v.
+
+   Vocabulary (all defined in Model/ and Proofs/):
+     unit_fn sc tensor clip units sizes Kmat u x   output of unit u of the layer on point x
+                                (hypercube: literal batch_outer_operation + kernel product; simplex:
+                                 literal sort / cumsum of strides / gather, incl. the units > 1 index arithmetic)
+     kern sizes Kmat u          column u of the kernel as a tensor over index vectors
+     sizes_ok sizes             every lattice size >= 2
+     ok_input clip sizes x      x has one coordinate per dimension and is in range or clip_inputs is on
+     eff clip sizes x           x clipped onto the lattice range if clip_inputs is on
+     knondecr sizes K d         K non-decreasing along dimension d
+     kedge sizes K m c          K satisfies the Edgeworth trust (main m, conditional c)
+     multilin K c z / in_cell   2^d-corner multilinear formula of the cell with lower corner c
+     scell K c rs / dec         simplex formula of the cell with lower corner c at residuals rs
+   All statements are for arbitrary rank, sizes, unit count and rational kernels. *)
+From Coq Require Import Permutation.
+From TFL Require Import Proofs.LatticeInterp.
+Open Scope Q_scope.
+
+(* Layer glue: entry (p, u) of the layer output is the unit function of unit u
+   on the row of unit u of point p. *)
+Theorem C02_layer_unit : forall sc tensor clip units sizes Kmat pts p u,
+  (p < length pts)%nat -> (u < units)%nat -> (u < length (nth p pts []))%nat ->
+  nth u (nth p (lattice_eval sc tensor clip units sizes Kmat pts) []) 0 =
+  unit_fn sc tensor clip units sizes Kmat u (nth u (nth p pts []) []).
+Proof. exact lattice_eval_unit. Qed.
+Print Assumptions C02_layer_unit.
+
+(* ---------------- hypercube ---------------- *)
+Theorem C02_hyper_vertex : forall tensor clip units sizes Kmat u v, sizes <> [] -> valid sizes v ->
+  unit_fn Hypercube tensor clip units sizes Kmat u (map qn v) == kern sizes Kmat u v.
+Proof. exact L_hyper_vertex. Qed.
+Print Assumptions C02_hyper_vertex.
+
+(* in-range or clipped input: the output never leaves [min kernel, max kernel]
+   (more generally any interval containing the kernel values) *)
+Theorem C02_hyper_convex : forall tensor clip units sizes Kmat u x, sizes <> [] ->
+  sizes_ok sizes -> ok_input clip sizes x -> length Kmat = prodn sizes ->
+  qminl (column u Kmat) <= unit_fn Hypercube tensor clip units sizes Kmat u x /\
+  unit_fn Hypercube tensor clip units sizes Kmat u x <= qmaxl (column u Kmat).
+Proof. exact L_hyper_convex. Qed.
+Print Assumptions C02_hyper_convex.
+
+(* the output is the multilinear formula over the 2^d corners of any cell
+   containing the (clipped) point; all other vertices have weight zero *)
+Theorem C02_hyper_is_multilinear : forall tensor clip units sizes Kmat u x c, sizes <> [] ->
+  ok_input clip sizes x -> in_cell sizes c (eff clip sizes x) ->
+  unit_fn Hypercube tensor clip units sizes Kmat u x == multilin (kern sizes Kmat u) c (eff clip sizes x).
+Proof. exact L_hyper_is_multilinear. Qed.
+Print Assumptions C02_hyper_is_multilinear.
+
+(* ... which is a convex combination of those corner values *)
+Theorem C02_hyper_cell_convex : forall sizes c z K lo hi, in_cell sizes c z ->
+  (forall i, corner_of c i -> lo <= K i /\ K i <= hi) -> lo <= multilin K c z /\ multilin K c z <= hi.
+Proof. exact multilin_bounds. Qed.
+Print Assumptions C02_hyper_cell_convex.
+
+(* continuity: on a face shared by two cells both cells' formulas give the same value *)
+Theorem C02_hyper_continuous : forall sizes K z c c', in_cell sizes c z -> in_cell sizes c' z ->
+  multilin K c z == multilin K c' z.
+Proof. exact hyper_continuous. Qed.
+Print Assumptions C02_hyper_continuous.
+
+(* kernel non-decreasing along d => output non-decreasing in x_d, for EVERY pair
+   of admissible points (same cell or not, clipped or not) *)
+Theorem C02_hyper_monotone : forall tensor clip units sizes Kmat u x d yd,
+  sizes_ok sizes -> (d < length sizes)%nat ->
+  ok_input clip sizes x -> ok_input clip sizes (set_nth d yd x) -> nth d x 0 <= yd ->
+  knondecr sizes (kern sizes Kmat u) d ->
+  unit_fn Hypercube tensor clip units sizes Kmat u x <= unit_fn Hypercube tensor clip units sizes Kmat u (set_nth d yd x).
+Proof. exact L_hyper_monotone. Qed.
+Print Assumptions C02_hyper_monotone.
+
+(* Edgeworth-feasible kernel => the effect of raising the main input m is
+   non-decreasing in the conditional input c *)
+Theorem C02_hyper_edgeworth_effect : forall tensor clip units sizes Kmat u x m c ym yc,
+  sizes_ok sizes -> (m < length sizes)%nat -> (c < length sizes)%nat -> m <> c ->
+  ok_input clip sizes x -> ok_input clip sizes (set_nth m ym x) ->
+  ok_input clip sizes (set_nth c yc x) -> ok_input clip sizes (set_nth m ym (set_nth c yc x)) ->
+  nth m x 0 <= ym -> nth c x 0 <= yc -> kedge sizes (kern sizes Kmat u) m c ->
+  unit_fn Hypercube tensor clip units sizes Kmat u (set_nth m ym x) - unit_fn Hypercube tensor clip units sizes Kmat u x <=
+  unit_fn Hypercube tensor clip units sizes Kmat u (set_nth m ym (set_nth c yc x)) -
+  unit_fn Hypercube tensor clip units sizes Kmat u (set_nth c yc x).
+Proof. exact L_hyper_edgeworth. Qed.
+Print Assumptions C02_hyper_edgeworth_effect.
+
+(* ---------------- simplex ---------------- *)
+Theorem C02_simplex_vertex : forall tensor clip units sizes Kmat u v,
+  sizes_ok sizes -> wfK units Kmat u -> valid sizes v ->
+  unit_fn Simplex tensor clip units sizes Kmat u (map qn v) == kern sizes Kmat u v.
+Proof. exact L_simplex_vertex. Qed.
+Print Assumptions C02_simplex_vertex.
+
+Theorem C02_simplex_convex : forall tensor clip units sizes Kmat u x,
+  sizes_ok sizes -> wfK units Kmat u -> ok_input clip sizes x -> length Kmat = prodn sizes ->
+  qminl (column u Kmat) <= unit_fn Simplex tensor clip units sizes Kmat u x /\
+  unit_fn Simplex tensor clip units sizes Kmat u x <= qmaxl (column u Kmat).
+Proof. exact L_simplex_convex. Qed.
+Print Assumptions C02_simplex_convex.
+
+(* the output is the sorted-simplex formula of a cell containing the (clipped) point *)
+Theorem C02_simplex_cell_formula : forall tensor clip units sizes Kmat u x,
+  sizes_ok sizes -> wfK units Kmat u -> ok_input clip sizes x ->
+  let z := eff clip sizes x in
+  dec sizes (mcorner sizes z) (mres sizes z) z /\
+  unit_fn Simplex tensor clip units sizes Kmat u x == scell (kern sizes Kmat u) (mcorner sizes z) (mres sizes z).
+Proof. exact L_simplex_cell_formula. Qed.
+Print Assumptions C02_simplex_cell_formula.
+
+(* ties: ANY descending arrangement of the (residual, dimension) pairs - any
+   tie-breaking of the sort - walks to the same output (continuity across the
+   simplices of a cell) *)
+Theorem C02_simplex_tie_invariant : forall tensor clip units sizes Kmat u x s',
+  sizes_ok sizes -> wfK units Kmat u -> ok_input clip sizes x ->
+  let z := eff clip sizes x in
+  Permutation s' (mpairs sizes z) -> chain 1 s' ->
+  walk (kern sizes Kmat u) 1 (mcorner sizes z) s' == unit_fn Simplex tensor clip units sizes Kmat u x.
+Proof. exact L_simplex_tie_invariant. Qed.
+Print Assumptions C02_simplex_tie_invariant.
+
+(* continuity across a cell face (outermost edge included): a point with
+   z_d = c_d + 1 can be decomposed from either side, the cell formulas agree *)
+Theorem C02_simplex_continuous : forall K sizes d c rs z, dec sizes c rs z -> (d < length sizes)%nat ->
+  (S (S (nth d c 0%nat)) < nth d sizes 0%nat)%nat ->
+  scell K c (set_nth d 1 rs) == scell K (bump c d) (set_nth d 0 rs).
+Proof. exact scell_face. Qed.
+Print Assumptions C02_simplex_continuous.
+
+(* kernel non-decreasing along d => output non-decreasing in x_d for EVERY pair
+   of admissible points (across simplices and across cells) *)
+Theorem C02_simplex_monotone : forall tensor clip units sizes Kmat u x d yd,
+  sizes_ok sizes -> wfK units Kmat u -> (d < length sizes)%nat ->
+  ok_input clip sizes x -> ok_input clip sizes (set_nth d yd x) -> nth d x 0 <= yd ->
+  knondecr sizes (kern sizes Kmat u) d ->
+  unit_fn Simplex tensor clip units sizes Kmat u x <= unit_fn Simplex tensor clip units sizes Kmat u (set_nth d yd x).
+Proof. exact L_simplex_monotone. Qed.
+Print Assumptions C02_simplex_monotone.
+
+(* ---------------- both schemes ---------------- *)
+Theorem C02_schemes_agree_vertices : forall tensor tensor' clip units sizes Kmat u v, sizes <> [] ->
+  sizes_ok sizes -> wfK units Kmat u -> valid sizes v ->
+  unit_fn Simplex tensor clip units sizes Kmat u (map qn v) == unit_fn Hypercube tensor' clip units sizes Kmat u (map qn v).
+Proof. exact L_schemes_agree_vertices. Qed.
+Print Assumptions C02_schemes_agree_vertices.
+
+(* axis-parallel edges (vertices included): every coordinate of the (clipped)
+   point except possibly coordinate e is an integer *)
+Theorem C02_schemes_agree : forall tensor tensor' clip units sizes Kmat u x e,
+  sizes_ok sizes -> wfK units Kmat u -> ok_input clip sizes x -> (e < length sizes)%nat ->
+  (forall j, j <> e -> (j < length sizes)%nat -> exists k, nth j (eff clip sizes x) 0 == qn k) ->
+  unit_fn Simplex tensor clip units sizes Kmat u x == unit_fn Hypercube tensor' clip units sizes Kmat u x.
+Proof. exact L_schemes_agree_edges. Qed.
+Print Assumptions C02_schemes_agree.
